@@ -10,4 +10,6 @@ EXPLANATION = ("Contracts on the real primitive codecs are discharged by pyvc (A
 def units(ctx):
     us = contract_units("C01", MODULES, ctx,
                         weight={"kmip.core.primitives.ByteString.read": 50})
+    from vf import ttlvunits
+    us += ttlvunits.make_units(ctx, "C01")
     return us
